@@ -35,10 +35,18 @@ RULE_KSP = (
 RULE_PRED = ("terminate_search / explain_termination / test called directly on random model trees (depth <= 3, limits up to "
              "u64::MAX, frequency 0 / 1..6 / huge) with scripted clocks and counters <= 2000, plus the crate's own unit-test "
              "points and hhmmss boundaries; I vs M only. Non-trivial = the test fails (terminated)")
-RULE_CONFIG = ("JSON -> TerminationModelBuilder::build: documented forms, upper-case type names, negative / zero / huge "
-               "integers (`as u64`), malformed durations, missing / mistyped fields, nested combined; I vs M only (built model "
-               "or error class). Non-trivial = a combined model is built")
-
+RULE_CONFIG = ("JSON -> TerminationModelBuilder::build. (i) build only: documented forms, upper-case type names, negative / zero / "
+               "huge integers (`as u64`), malformed durations, missing / mistyped fields, nested combined; I vs M (built model "
+               "or error class). (ii) configured models at work (every 3rd case and the fixed chain / star / unreachable / "
+               "edge-oriented worlds): a sweep of CONFIGURATIONS - iterations and solution_size limits 0..needed+2, other "
+               "spellings, combined, query_runtime budgets 0/1/3/10 s at one frequency under one hook-H2 clock script, negative "
+               "numbers, zero frequency - each built by the real builder and a real search run under the builder's own model; "
+               "I vs M: built model and the whole observation; I vs S, decided in Coq from the JSON configuration and the "
+               "implementation's observations: reading the limits as the property does (limit L >= 0 means L; h:mm:ss seconds "
+               "every `frequency` >= 1 iterations), the run must obey clauses (a) (b) (c) of the limits stream for the "
+               "CONFIGURED numbers (so a configured 0 stops every search at its first test, success is monotone over the "
+               "configured sweep) and a well-formed configuration must be accepted; configurations outside that reading are "
+               "unspecified. Non-trivial = a combined model is built / the unlimited run makes >= 3 tests")
 
 def classify(case, i, m, s):
     return None
@@ -94,7 +102,7 @@ def run(chk):
             vf.compare(chk, rc, classify=classify, binpath=binp, stream_label="corpus:" + name)
     for stream, n, rule in plan:
         # the two small streams need few coqc processes (each one pays the library loading time)
-        shards = vf.NPROC if stream in ("limits", "ksp") else 4
+        shards = vf.NPROC if stream in ("limits", "ksp", "config") else 4
         r = vf.run_stream(binp, stream, n, chk.seed, os.path.join(chk.outdir, stream), shards=shards, replay=chk.replay)
         k = skip_unmodelled(r)
         if k:
